@@ -400,6 +400,11 @@ mod imp {
                     }
                 }
             }
+            if viol.is_none() {
+                if let End::CorruptWsStream(what) = &c.end {
+                    viol = Some(("ws-stream-not-messages".to_string(), format!("after {} recorded message(s) the peer's WebSocket parser hit `{what}`: what the endpoint wrote is not a sequence of whole WebSocket messages", seen_tokens.len())));
+                }
+            }
             if let Some((class, detail)) = viol {
                 any_violation = true;
                 rep.violation(sig(&class), format!("[{} / {}] {detail}; peer recording ended with {:?}", out.name, c.label, c.end), replay.clone());
